@@ -26,10 +26,12 @@ HARNESSES = {
             'steps': [SFrame(TEXT, b'x').encode()]},                                                          # at a message while closing
     'K17': {'threads': [[('send_text', 'at unresponsive')]], 'loop': 4, 'connect': {'ping_timeout': 7}},
     'K18': {'threads': [[('close', (1000, b'caf\xc3'))], [('send_text', 'racing a bytes reason'), ('close', ())]]},
+    # the loop thread reconnects the same object (as persist() does) while another thread closes and sends
+    'K19': {'threads': [[('close', ()), ('send_text', 'after'), ('close', (3005, 'again'))]], 'loop': 7, 'reconnect': True, 'steps': [W.Eof()]},
     'K9': {'threads': [[('send_text', 'pre'), ('close', (1001, 'x'))], [('send_binary', b'\xaa'), ('close', ())]]},
 }
-BOUNDS = {'quick': {'K1': 2, 'K2': 2, 'K3': 1, 'K4': 1, 'K5': 1, 'K6': 1, 'K7': 1, 'K8': 1, 'K9': 1, 'K10': 1, 'K11': 1, 'K12': 1, 'K13': 1, 'K14': 1, 'K15': 1, 'K16': 1, 'K17': 1, 'K18': 1},
-          'thorough': {'K1': 3, 'K2': 3, 'K3': 2, 'K4': 2, 'K5': 2, 'K6': 2, 'K7': 2, 'K8': 2, 'K9': 2, 'K10': 2, 'K11': 2, 'K12': 2, 'K13': 2, 'K14': 2, 'K15': 2, 'K16': 2, 'K17': 2, 'K18': 2}}
+BOUNDS = {'quick': {'K1': 2, 'K2': 2, 'K3': 1, 'K4': 1, 'K5': 1, 'K6': 1, 'K7': 1, 'K8': 1, 'K9': 1, 'K10': 1, 'K11': 1, 'K12': 1, 'K13': 1, 'K14': 1, 'K15': 1, 'K16': 1, 'K17': 1, 'K18': 1, 'K19': 1},
+          'thorough': {'K1': 3, 'K2': 3, 'K3': 2, 'K4': 2, 'K5': 2, 'K6': 2, 'K7': 2, 'K8': 2, 'K9': 2, 'K10': 2, 'K11': 2, 'K12': 2, 'K13': 2, 'K14': 2, 'K15': 2, 'K16': 2, 'K17': 2, 'K18': 2, 'K19': 1}}
 PARTS = 16
 CLOSURE = {'quick': ['K1'], 'thorough': ['K1', 'K2', 'K3', 'K4', 'K6', 'K7', 'K8', 'K9', 'K11']}      # harnesses searched over *all* interleavings (lv.sched_closure)
 
@@ -61,6 +63,25 @@ def judge(ex, hname):
         late = [fr for fr in frames[closes[0] + 1:] if fr[0] in (TEXT, BINARY, CONT)]
         if late:
             out.append(('data-after-close', 'wire: %s' % brief(frames)))
+    if HARNESSES[hname].get('reconnect'):
+        # the second connection of the same object is judged the same way; a call may have landed on either connection
+        frames2 = [(f.opcode, f.payload) for f in ex.frames2]
+        for f in ex.frames2:
+            if f.problems:
+                out.append(('invalid-frame', 'second connection: %r' % f))
+        if ex.garbage2:
+            out.append(('torn-frame', 'second connection: ' + ex.garbage2))
+        closes2 = [i for i, (op, _) in enumerate(frames2) if op == CLOSE]
+        if len(closes2) > 1:
+            out.append(('two-closes', 'second connection, wire: %s' % brief(frames2)))
+        if closes2 and [fr for fr in frames2[closes2[0] + 1:] if fr[0] in (TEXT, BINARY, CONT)]:
+            out.append(('data-after-close', 'second connection, wire: %s' % brief(frames2)))
+        frames = frames + frames2
+        closes = []
+        # Only the two structural clauses are judged here. Between reset() and the creation of the new session inside connect()
+        # the object has no session, and a call made in that window fails with AttributeError, exactly like a call made before
+        # the first connect(); the property quantifies over close() racing sends and closes, not over connect() (noted in DESIGN 9).
+        return out
     for tid, results in sc.results.items():
         for r in results:
             if r[0].startswith('event:') or r[0] == 'loop':
